@@ -23,6 +23,14 @@ func (e *kvElection) validationLoop(ctx context.Context) {
 	ticker := time.NewTicker(interval)
 	defer ticker.Stop()
 
+	// The store is expected to answer within half a heartbeat interval (the
+	// heartbeat's own time-out is max(H/2, 1s)); with long intervals the fixed
+	// 2s would declare a store unreachable that answers well within that.
+	validationTimeout := defaultValidationTimeout
+	if half := e.cfg.HeartbeatInterval / 2; half > validationTimeout {
+		validationTimeout = half
+	}
+
 	consecutiveFailures := 0
 	maxFailures := 2
 
@@ -35,7 +43,7 @@ func (e *kvElection) validationLoop(ctx context.Context) {
 				return
 			}
 
-			validationCtx, cancel := context.WithTimeout(ctx, defaultValidationTimeout)
+			validationCtx, cancel := context.WithTimeout(ctx, validationTimeout)
 			isValid, err := e.validateToken(validationCtx)
 			cancel()
 
